@@ -211,11 +211,13 @@ PROPS["C05"] = {
     },
     "src": "props/C05.cpp",
     "level": "exploration",
-    "rule": ("case = (source family of C04 with the concatenating merge function, dupsort option, 1-3 iterator specs, <= 30 ops with "
+    "rule": ("case = (source family of C04 with the concatenating merge function — or, in 30% of the cases, NO merge function over sources "
+             "whose key sets are disjoint — dupsort option, 1-3 iterator specs, <= 30 ops with "
              "targets relative to the model cursor, optional derived lookup set). Non-trivial: >= 2 sources with different key sets and "
              "a history containing at least one next and one seek."),
     "expect_tags": ["sources_with_different_key_sets", "keys_needing_merge", "seek_to_key_just_returned", "backward_seek",
-                    "seek_after_failure", "lookups_through_merger_source", "kind_0", "kind_1", "kind_2", "kind_3", "user_defined_source"],
+                    "seek_after_failure", "lookups_through_merger_source", "kind_0", "kind_1", "kind_2", "kind_3", "user_defined_source",
+                    "no_merge_function_disjoint_sources"],
     "assumptions": TABLE_ASSUME,
     "tiers": {
         "quick": [{"mode": "rc", "cases": 1500, "max_size": 100}],
